@@ -50,6 +50,11 @@ def make_packages(P):
     # same type name as pa's, defined differently (implements nothing)
     pc = P.add_component("pc", [M.SType("pa1", (M.Key("other"),))])
     pd = P.add_component("pd", [M.SType("pd1", (), implements="b")])     # needs abstract type b
+    # two components that import EACH OTHER (and one that imports itself): a component is read once per load
+    pe_name, pf_name, pg_name = P.name("pe"), P.name("pf"), P.name("pg")
+    P.add_component("pe", [M.SType("pe1", (M.Key("pk"),), implements="a")], imports=(pf_name,))
+    P.add_component("pf", [M.SType("pf1", (M.Key("pk"),), implements="a")], imports=(pe_name,))
+    P.add_component("pg", [M.SType("pg1", (), implements="a")], imports=(pg_name,))
     nocomp = P.add_package_without_component("nocomp")
     mod = P.add_module("mod")
     missing = P.missing("missing")
@@ -88,9 +93,9 @@ def observe_mem(sch, files):
     return ("I", core.exc_desc(r[1]))
 
 
-def explore_texts(S, sch, P, plist, depth, acc, mid, d0, tier):
+def explore_texts(S, sch, P, plist, depth, acc, mid, d0, tier, A=None):
     """BFS over event sequences; reference state = (container state, imports)."""
-    A = alphabet(S, plist, tier)
+    A = A or alphabet(S, plist, tier)
     xml = mid["schema"]
     seen = set()
     frontier = [()]
@@ -99,7 +104,7 @@ def explore_texts(S, sch, P, plist, depth, acc, mid, d0, tier):
         for hist in frontier:
             for ev in A:
                 h2 = hist + (ev,)
-                ref = R.decide(S, h2, want_state=True, packages=P.types, preimported=PRE[0])
+                ref = R.decide(S, h2, want_state=True, packages=P.types, preimported=PRE[0], package_imports=P.imports)
                 text = H.render_events(h2)
                 acc.current = text
                 obs = observe(sch, text)
@@ -185,13 +190,25 @@ def history_texts(S, plist):
     return texts
 
 
+def provided(P, pkg, seen=None):
+    """Types a '%import pkg' makes available: its own and, transitively, those of the components it imports."""
+    seen = set() if seen is None else seen
+    if pkg in seen or not P.types.get(pkg):
+        return []
+    seen.add(pkg)
+    out = list(P.types[pkg])
+    for sub in P.imports.get(pkg, ()):
+        out += provided(P, sub, seen)
+    return out
+
+
 def uses_imported(texts, hist, step, P):
     """Does the text of this step use a type name that an EARLIER load of the history imported?"""
     imported = set()
     for i in hist[:step]:
         for e in texts[i]:
             if e[0] == "i" and P.types.get(e[1]):
-                imported |= {t.name for t in P.types[e[1]]}
+                imported |= {t.name for t in provided(P, e[1])}
     return any(e[0] == "e" and e[1] in imported for e in texts[hist[step]])
 
 
@@ -215,7 +232,7 @@ def redefines_earlier_type(texts, hist, step, P):
 def explore_histories(S, xml, P, plist, hlen, acc, mid):
     texts = history_texts(S, plist)
     rendered = [H.render_events(t) for t in texts]
-    refs = [R.decide(S, t, packages=P.types, preimported=PRE[0]) for t in texts]
+    refs = [R.decide(S, t, packages=P.types, preimported=PRE[0], package_imports=P.imports) for t in texts]
     fresh = H.load_schema(xml)
     fresh_digest = None
     for n in range(1, hlen + 1):
@@ -279,6 +296,12 @@ def shard(arg, acc):
                 d0 = H.schema_digest(sch)
                 PRE[0] = pre
                 explore_texts(Sref, sch, P, plist, depth if not pre else min(depth, 3), acc, mid, d0, tier)
+                if nconc == 2 and not two and not pre:
+                    # components importing each other / themselves, reached through '%import'
+                    Am = [("i", P.real[x]) for x in ("pe", "pf", "pg", "pa")] + \
+                         [("e", t, None) for t in ("pe1", "pf1", "pg1", "pa1", "c1")]
+                    explore_texts(Sref, sch, P, plist, 3 if tier == "quick" else 4, acc, mid, d0, tier, A=Am)
+                    acc.extra["mutual_import_explorations"] += 1
                 if hlen:
                     explore_histories(Sref, xml, P, plist, hlen if not pre else min(hlen, 2), acc, mid)
                 acc.extra["schemas"] += 1
@@ -305,7 +328,8 @@ def run(tier):
     run = core.Run(
         "C12", tier, "model_checking",
         rule="schemas: abstract types a (and b) x 2..%d concrete types, each implementing none / a / b and extending "
-             "none / any earlier one, in every combination (%d schemas); 4 generated component packages (pa, pb with "
+             "none / any earlier one, in every combination (%d schemas); 7 generated component packages (two importing each "
+             "other, one importing itself - explored in their own text BFS -, pa, pb with "
              "an extender of an implementer, pc defining pa's type name differently, pd needing abstract type b) and 3 "
              "non-components (package without component.xml, plain module, missing); texts: breadth-first search over "
              "all sequences of '%%import P' (7 names) and '<t/>' (every type name, abstract ones, unknown) up to the "
